@@ -261,7 +261,7 @@ def run(ctx: Ctx):
     for s in range(nsc):
         spec = rich.random_spec(rng)
         if s == 3:
-            spec.update(sub_ns=True, bad_dur=True, short=True, meta=True, near_wrap=True)
+            spec.update(sub_ns=True, bad_dur=True, short=True, meta=True, near_wrap=True, flat_power=True, origin=True)
         if s == 4:
             spec.update(layout="subdirs", kernels=0)
         if s == 0:
@@ -279,6 +279,8 @@ def run(ctx: Ctx):
         osets = ([[]] + [dom[(s * 3 + j) % len(dom)] for j in range(3)] + pairs[:4]) if ctx.quick() else singles + pairs
         if spec.get("stale") and ["--flow"] not in osets:
             osets = osets + [["--flow"]]
+        if spec.get("flat_power") and ["--power-stats"] not in osets:
+            osets = osets + [["--power-stats"]]          # statistics over power samples that are all exactly 0 W
         for oi, o in enumerate(osets):
             with_I = oi % 3 == 0 and "--tb" not in o
             ecases.append({"kind": "e2e", "spec": spec, "opts": o, "with_I": with_I})
